@@ -37,9 +37,9 @@ def goenv():
     return env
 
 
-def build(cid, cfg):
+def build(cid, cfg, race=False):
     os.makedirs(BUILD, exist_ok=True)
-    out = os.path.join(BUILD, cid.lower() + ".test")
+    out = os.path.join(BUILD, cid.lower() + (".race.test" if race else ".test"))
     cmd = ["go", "test", "-c", "-vet=off", "-tags", "verif", "-o", out]
     alt = os.environ.get("VERIF_REPO")
     if alt:
@@ -54,7 +54,7 @@ def build(cid, cfg):
         import overlay
         ov = overlay.generate(cfg["overlay"], BUILD)
         cmd += ["-overlay", ov]
-    if cfg.get("race"):
+    if race:
         cmd += ["-race"]
     cmd += ["./" + cfg["pkg"]]
     p = subprocess.run(cmd, cwd=ROOT, env=goenv(), stdout=subprocess.PIPE, stderr=subprocess.STDOUT, text=True)
@@ -97,6 +97,8 @@ def main():
         ok = True
         for cid, cfg in CHECKS.items():
             ok = (build(cid, cfg) is not None) and ok
+            if cfg.get("race_test"):
+                ok = (build(cid, cfg, race=True) is not None) and ok
         return 0 if ok else 2
     cid = args[0].upper()
     tier = os.environ.get("VERIF_TIER", "quick")
@@ -120,6 +122,13 @@ def main():
     binary = build(cid, cfg)
     if binary is None:
         return 2
+    race_binary = None
+    if cfg.get("race_test") and not replay:
+        # companion pass: the thread bodies of the controlled-scheduler tier on
+        # free-running goroutines under the race detector (see DESIGN 1.1).
+        race_binary = build(cid, cfg, race=True)
+        if race_binary is None:
+            return 2
     ncpu = os.cpu_count() or 4
     if shards is None:
         shards = min(cfg.get("shards", 16), max(1, ncpu))
@@ -144,6 +153,18 @@ def main():
                 env["VERIF_REPLAY"] = os.path.abspath(replay)
             log = open(os.path.join(outdir, "%s.%d.log" % (cid, s)), "w")
             cmd = [binary, "-test.run", "^%s$" % cfg["test"], "-test.timeout", "0", "-test.count", "1"]
+            procs.append((subprocess.Popen(cmd, cwd=os.path.join(ROOT, cfg["pkg"]), env=env, stdout=log, stderr=subprocess.STDOUT), out, log))
+        if race_binary:
+            out = os.path.join(outdir, "%s.race.json" % cid)
+            if os.path.exists(out):
+                os.remove(out)
+            env = goenv()
+            env.update({"VERIF_TIER": tier, "VERIF_SEED": str(seed), "VERIF_SHARD": "0/1", "VERIF_OUT": out})
+            env["GOMAXPROCS"] = "4"
+            env["GORACE"] = "halt_on_error=0 history_size=2"
+            env["VERIF_BUDGET_S"] = str(cfg.get("race_budget_s", {}).get(tier, 60 if tier == "quick" else 600))
+            log = open(os.path.join(outdir, "%s.race.log" % cid), "w")
+            cmd = [race_binary, "-test.run", "^%s$" % cfg["race_test"], "-test.timeout", "0", "-test.count", "1"]
             procs.append((subprocess.Popen(cmd, cwd=os.path.join(ROOT, cfg["pkg"]), env=env, stdout=log, stderr=subprocess.STDOUT), out, log))
         merged = None
         crashed = []
